@@ -39,7 +39,7 @@ LEVEL_TEXT = (
     "search is the fitting level; no bound is closed."
 )
 
-BENIGN_UNDEF = ("fuel", "recursion depth", "address dependent control flow")
+BENIGN_UNDEF = ("recursion depth", "address dependent control flow")  # generated loops are tiny: running out of 200000 steps means the IR does not terminate
 _TMP = None
 
 
